@@ -9,6 +9,11 @@ import (
 type ShallowStorage struct {
 	storer.ShallowStorer
 	temporal storer.ShallowStorer
+
+	// set records that SetShallow was called in this transaction. An empty
+	// list is a value too (the repository was unshallowed), so the temporal
+	// list being empty cannot stand for "not set".
+	set bool
 }
 
 // NewShallowStorage returns a new ShallowStorage based on a base storer and
@@ -22,18 +27,18 @@ func NewShallowStorage(base, temporal storer.ShallowStorer) *ShallowStorage {
 
 // SetShallow honors the storer.ShallowStorer interface.
 func (s *ShallowStorage) SetShallow(commits []plumbing.Hash) error {
-	return s.temporal.SetShallow(commits)
+	if err := s.temporal.SetShallow(commits); err != nil {
+		return err
+	}
+
+	s.set = true
+	return nil
 }
 
 // Shallow honors the storer.ShallowStorer interface.
 func (s *ShallowStorage) Shallow() ([]plumbing.Hash, error) {
-	shallow, err := s.temporal.Shallow()
-	if err != nil {
-		return nil, err
-	}
-
-	if len(shallow) != 0 {
-		return shallow, nil
+	if s.set {
+		return s.temporal.Shallow()
 	}
 
 	return s.ShallowStorer.Shallow()
@@ -42,8 +47,12 @@ func (s *ShallowStorage) Shallow() ([]plumbing.Hash, error) {
 // Commit it copies the shallow information of the temporal storage into the
 // base storage.
 func (s *ShallowStorage) Commit() error {
+	if !s.set {
+		return nil
+	}
+
 	commits, err := s.temporal.Shallow()
-	if err != nil || len(commits) == 0 {
+	if err != nil {
 		return err
 	}
 
